@@ -53,6 +53,10 @@ def scenarios(W):
     add("server-close-immediately", [ok((0.0, "close", b"\x03\xe8"))], "close-frame", (1000, ""))
     add("server-close-then-eof", [ok(msg, (2.0, "close", b"\x03\xe8bye", True))], "close-frame", (1000, "bye"))
     add("server-close-fragmented-before", [ok((1.0, "frames", R.encode(R.TEXT, b"fr", fin=0)), (1.5, "frames", R.encode(R.CONT, b"ag")), (2.0, "close", b"\x03\xea"))], "close-frame", (1002, ""))
+    add("server-close-bad-utf8-reason-validation-off", [ok(msg, (2.0, "close", b"\x03\xe8bye \xff\xfe"))], "close-frame", (1000, "*"),
+        run_kwargs=dict(skip_utf8_validation=True))
+    add("server-close-truncated-utf8-reason-validation-off", [ok(msg, (2.0, "close", b"\x0f\xa1\xe2\x82"))], "close-frame", (4001, "*"),
+        run_kwargs=dict(skip_utf8_validation=True))
     # --- losses / errors ---
     add("eof", [ok(msg, (2.0, "eof"))], "error")
     add("eof-immediately", [ok((0.0, "eof"))], "error")
@@ -157,6 +161,8 @@ def judge(res, W, run, sc, Ssim, tag, failure, second=False, dispatcher=None):
         args = trace[-1][2]
         if ending == "own-close" and tuple(args) != (None, None) and len(args) == 2 and isinstance(args[0], int):
             res.count("own_close_echo_code_passed_to_on_close")  # statement is silent on the echo of our own close frame: not judged
+        elif len(close_args) == 2 and close_args[1] == "*" and len(args) == 2 and args[0] == close_args[0] and isinstance(args[1], (str, bytes)):
+            res.count("undecodable_close_reason_passed_somehow")  # how an undecodable reason is rendered is not specified: only the code is judged
         elif tuple(args) != tuple(close_args):
             bad("on_close-args", f"on_close{tuple(args)!r}, expected {tuple(close_args)!r}", got_none=args[0] is None)
     # transports and ping threads gone
